@@ -13,6 +13,24 @@ def _abs_edges(spec):
     return out
 
 
+def _case_edges(case):
+    """edges of the spec plus one pseudo edge per (extrinsic input, addressed node): PyRates realises inputs as
+    edges from an input node, so the vectorisation defects that depend on the edge pattern apply to them as well"""
+    spec = case["spec"]
+    out = _abs_edges(spec)
+    if case.get("inputs"):
+        from .props.c06 import match
+        from .props.c08 import ordered_nodes
+        kinds = {f"{p}/{o}/{v[0]}" for p, nt in spec["nodes"] for o in spec["ntypes"][nt]["ops"]
+                 for v in spec["ops"][o]["vars"]}
+        for i, inp in enumerate(case["inputs"]):
+            *pat, op, var = inp["target"].split("/")
+            for p in ordered_nodes(spec):
+                if match("/".join(pat), p) and f"{p}/{op}/{var}" in kinds:
+                    out.append((f"__input{i}/{var}_input_op/{var}_timed_input", f"{p}/{op}/{var}", {"w": 1.0}))
+    return out
+
+
 def _node(p):
     return p.rsplit("/", 2)[0]
 
@@ -27,7 +45,7 @@ def _op(p):
 
 def _merged_node_key(spec, node_path, vectorize):
     """Nodes that vectorisation merges into one IR node share this key (same operator structure)."""
-    if not vectorize:
+    if not vectorize or node_path.startswith("__input"):
         return node_path
     nt = dict((p, n) for p, n in spec["nodes"])[node_path]
     ops = spec["ntypes"][nt]["ops"]
@@ -198,7 +216,7 @@ def vectorized_fan_in_to_single_unit(case):
     spec = case["spec"]
     groups = _groups(spec, True)
     by = {}
-    for s, t, e in _abs_edges(spec):
+    for s, t, e in _case_edges(case):
         k = (_merged_node_key(spec, _node(s), True), _op(s), _var(s), _merged_node_key(spec, _node(t), True), _op(t),
              _var(t), e.get("d") is not None)
         by.setdefault(k, []).append((_node(s), _node(t)))
@@ -248,7 +266,7 @@ def vectorized_wired_input_with_edges_to_some_units(case):
     wired = _wired_inputs(spec)
     groups = _groups(spec, True)
     tgt = {}
-    for s, t, e in _abs_edges(spec):
+    for s, t, e in _case_edges(case):
         tgt.setdefault((_merged_node_key(spec, _node(t), True), _op(t), _var(t)), set()).add(_node(t))
     for (gk, o, v), units in tgt.items():
         paths = groups[gk]
@@ -266,7 +284,7 @@ def vectorized_multi_source_input_with_unconnected_units(case):
     spec = case["spec"]
     groups = _groups(spec, True)
     tgt = {}
-    for s, t, e in _abs_edges(spec):
+    for s, t, e in _case_edges(case):
         k = (_merged_node_key(spec, _node(t), True), _op(t), _var(t))
         d = tgt.setdefault(k, {"units": set(), "src": set()})
         d["units"].add(_node(t))
@@ -312,3 +330,18 @@ def explicit_time_under_fixed_step_solver(case):
     if case.get("cfg", {}).get("solver") not in ("euler", "heun"):
         return False
     return any(E.uses_time(a) for a in _all_asts(case))
+
+
+@predicate("F-08a")
+def inputs_into_depth2_hierarchy(case):
+    """extrinsic inputs on a circuit with two or more hierarchy levels"""
+    return bool(case.get("inputs")) and max(p.count("/") for p, _ in case["spec"]["nodes"]) >= 2
+
+
+@predicate("F-05d")
+def rhs_cancels_to_constant(case):
+    """an equation whose right-hand side mentions variables but simplifies to a constant (z = x - x)"""
+    for ast in _all_asts(case):
+        if _has_var(ast) and _is_constant_expr(ast):
+            return True
+    return False
